@@ -649,9 +649,9 @@ bool GrothSKC::Verify_interactive
 		if (!in.good())
 			throw false;
 		
-		// check whether $c_d, c_a, c_{\Delta} \in\mathcal{C}_{ck}$
-		if (!(com->TestMembership(c_d) && com->TestMembership(c_a) &&
-			com->TestMembership(c_Delta)))
+		// check whether $c, c_d, c_a, c_{\Delta} \in\mathcal{C}_{ck}$
+		if (!(com->TestMembership(c) && com->TestMembership(c_d) &&
+			com->TestMembership(c_a) && com->TestMembership(c_Delta)))
 				throw false;
 		
 		// check whether $f_1, \ldots, f_n, z \in\mathbb{Z}_q$
@@ -838,9 +838,9 @@ bool GrothSKC::Verify_interactive_publiccoin
 		if (!in.good())
 			throw false;
 		
-		// check whether $c_d, c_a, c_{\Delta} \in\mathcal{C}_{ck}$
-		if (!(com->TestMembership(c_d) && com->TestMembership(c_a) &&
-			com->TestMembership(c_Delta)))
+		// check whether $c, c_d, c_a, c_{\Delta} \in\mathcal{C}_{ck}$
+		if (!(com->TestMembership(c) && com->TestMembership(c_d) &&
+			com->TestMembership(c_a) && com->TestMembership(c_Delta)))
 				throw false;
 		
 		// check whether $f_1, \ldots, f_n, z \in\mathbb{Z}_q$
@@ -1028,9 +1028,9 @@ bool GrothSKC::Verify_noninteractive
 		if (!in.good())
 			throw false;
 		
-		// check whether $c_d, c_a, c_{\Delta} \in\mathcal{C}_{ck}$
-		if (!(com->TestMembership(c_d) && com->TestMembership(c_a) &&
-			com->TestMembership(c_Delta)))
+		// check whether $c, c_d, c_a, c_{\Delta} \in\mathcal{C}_{ck}$
+		if (!(com->TestMembership(c) && com->TestMembership(c_d) &&
+			com->TestMembership(c_a) && com->TestMembership(c_Delta)))
 				throw false;
 		
 		// check whether $f_1, \ldots, f_n, z \in\mathbb{Z}_q$
@@ -1215,9 +1215,9 @@ bool GrothSKC::Verify_interactive
 		if (!in.good())
 			throw false;
 		
-		// check whether $c_d, c_a, c_{\Delta} \in\mathcal{C}_{ck}$
-		if (!(com->TestMembership(c_d) && com->TestMembership(c_a) &&
-			com->TestMembership(c_Delta)))
+		// check whether $c, c_d, c_a, c_{\Delta} \in\mathcal{C}_{ck}$
+		if (!(com->TestMembership(c) && com->TestMembership(c_d) &&
+			com->TestMembership(c_a) && com->TestMembership(c_Delta)))
 				throw false;
 		
 		// check whether $f_1, \ldots, f_n, z \in\mathbb{Z}_q$
@@ -1426,9 +1426,9 @@ bool GrothSKC::Verify_interactive_publiccoin
 		if (!in.good())
 			throw false;
 		
-		// check whether $c_d, c_a, c_{\Delta} \in\mathcal{C}_{ck}$
-		if (!(com->TestMembership(c_d) && com->TestMembership(c_a) &&
-			com->TestMembership(c_Delta)))
+		// check whether $c, c_d, c_a, c_{\Delta} \in\mathcal{C}_{ck}$
+		if (!(com->TestMembership(c) && com->TestMembership(c_d) &&
+			com->TestMembership(c_a) && com->TestMembership(c_Delta)))
 				throw false;
 		
 		// check whether $f_1, \ldots, f_n, z \in\mathbb{Z}_q$
@@ -1637,9 +1637,9 @@ bool GrothSKC::Verify_noninteractive
 		if (!in.good())
 			throw false;
 		
-		// check whether $c_d, c_a, c_{\Delta} \in\mathcal{C}_{ck}$
-		if (!(com->TestMembership(c_d) && com->TestMembership(c_a) &&
-			com->TestMembership(c_Delta)))
+		// check whether $c, c_d, c_a, c_{\Delta} \in\mathcal{C}_{ck}$
+		if (!(com->TestMembership(c) && com->TestMembership(c_d) &&
+			com->TestMembership(c_a) && com->TestMembership(c_Delta)))
 				throw false;
 		
 		// check whether $f_1, \ldots, f_n, z \in\mathbb{Z}_q$
